@@ -2028,7 +2028,11 @@ func r5C09(c *Ctx) {
 		return
 	}
 	n := 0
-	for _, b := range efn.Blocks {
+	var eblocks []*ssa.BasicBlock
+	for _, g := range samePkgClosure(p, efn) { // the fetch loop may be a helper of EnsureRoutes
+		eblocks = append(eblocks, g.Blocks...)
+	}
+	for _, b := range eblocks {
 		for _, in := range b.Instrs {
 			st, ok := in.(*ssa.Store)
 			if !ok {
